@@ -1378,3 +1378,49 @@ def beta_pure_closures(prog, f):
         return n2
     nb = rw(f.body)
     return nb if done[0] else None
+
+
+def beta_pure_functions(prog, f, news):
+    """`static bool qubitIndexWithin(int index, size_t size) { return index >= 0 && index < static_cast<int>(size); }` — a *new* free
+    function (see Program._inline_new_functions) whose body is one `return <pure expression>` over its value parameters denotes that
+    expression: its calls with side-effect-free arguments are replaced by it, in any expression position (a range predicate hoisted
+    out of six functions reads as the test it stands for).  Returns the new body, or None when nothing applies."""
+    if not f.body:
+        return None
+    cands = {}
+    for h in news:
+        if h.kind != 'function' or h.cls or not h.body or h is f:
+            continue
+        st = h.body.get('body') if SX.is_node(h.body) and h.body.get('k') == 'block' else None
+        if not (st and len(st) == 1 and st[0]['k'] == 'return' and SX.is_node(st[0].get('e'))):
+            continue
+        e = st[0]['e']
+        if any(x.get('k') == 'lambda' for x in SX.walk(e)) or not pure(e):
+            continue
+        if any(x.get('k') in ('call', 'mcall') and x.get('callee') == h.name for x in SX.walk(e)):
+            continue
+        if any((p_.get('type') or '').rstrip().endswith('&') and not (p_.get('type') or '').startswith('const') for p_ in h.params):
+            continue
+        cands[h.key] = h
+        cands.setdefault(h.name, h)
+    if not cands:
+        return None
+    done = [0]
+
+    def rw(n):
+        if isinstance(n, list):
+            return [rw(x) for x in n]
+        if not isinstance(n, dict):
+            return n
+        n2 = {k: rw(v) if isinstance(v, (dict, list)) else v for k, v in n.items()}
+        if n2.get('k') == 'call' and n2.get('callee'):
+            h = cands.get(n2['callee'] + n2.get('sig', '')) or (cands.get(n2['callee']) if len([1 for k_ in cands if k_.startswith(n2['callee'] + '(')]) <= 1 else None)
+            if h is not None:
+                args = SX.real_args(n2)
+                if len(h.params) == len(args) and all(pure(a) for a in args):
+                    sub = {p_['id']: a for p_, a in zip(h.params, args)}
+                    done[0] += 1
+                    return _clone(h.body['body'][0]['e'], {}, sub)
+        return n2
+    nb = rw(f.body)
+    return nb if done[0] else None
